@@ -17,7 +17,7 @@ class Optimizer(ABC):
         
     def zero_grad(self):
         for p in self.parameters:
-            p.zero_()
+            if p.requires_grad: p.zero_()
         
     @abstractmethod
     def step(self):
@@ -46,7 +46,7 @@ class SGD(Optimizer):
         """
         super().__init__(parameters, lr)
         self.momentum = momentum
-        self.momentum_buffer = []
+        self.momentum_buffer = [None for _ in range(len(parameters))]
         self.nesterov = nesterov
         self.dampening = dampening
         self.maximize = maximize
@@ -59,6 +59,7 @@ class SGD(Optimizer):
         super().step()
         with synapgrad.no_grad():
             for i, p in enumerate(self.parameters):
+                if not p.requires_grad or p._grad is None: continue # frozen / unused parameters stay fixed
                 grad = p._grad
                 
                 # Weight decay
@@ -67,10 +68,10 @@ class SGD(Optimizer):
                 
                 # Momentum
                 if self.momentum != 0:
-                    if self.t > 1:
+                    if self.momentum_buffer[i] is not None:
                         self.momentum_buffer[i] = self.momentum*self.momentum_buffer[i] + (1.0 - self.dampening)*grad
                     else:
-                        self.momentum_buffer.append(grad)
+                        self.momentum_buffer[i] = np.array(grad) # own copy: p._grad keeps accumulating in place
                 
                     # Nesterov
                     if self.nesterov:
@@ -114,11 +115,14 @@ class Adam(Optimizer):
         
         self.m1 = [0 for _ in range(len(parameters))]
         self.m2 = [0 for _ in range(len(parameters))]
+        self.steps = [0 for _ in range(len(parameters))] # updates applied to each parameter
     
     def step(self):
         super().step()
         with synapgrad.no_grad():
             for i, p in enumerate(self.parameters):
+                if not p.requires_grad or p._grad is None: continue # frozen / unused parameters stay fixed
+                self.steps[i] += 1
                 grad = -p._grad if self.maximize else p._grad   
                     
                 # Weight decay
@@ -131,8 +135,8 @@ class Adam(Optimizer):
                 # Update biased second raw moment estimate
                 self.m2[i] = self.beta2 * self.m2[i] + (1.0 - self.beta2) * grad**2.0
                 
-                m1_corrected = self.m1[i] / (1.0 - self.beta1**self.t)
-                m2_corrected = self.m2[i] / (1.0 - self.beta2**self.t)
+                m1_corrected = self.m1[i] / (1.0 - self.beta1**self.steps[i])
+                m2_corrected = self.m2[i] / (1.0 - self.beta2**self.steps[i])
 
                 # Update the parameters using the Adam formula
                 p.data -= (self.lr * m1_corrected) / (np.sqrt(m2_corrected) + self.epsilon)
@@ -167,11 +171,14 @@ class AdamW(Optimizer):
         
         self.m1 = [0 for _ in range(len(parameters))]
         self.m2 = [0 for _ in range(len(parameters))]
+        self.steps = [0 for _ in range(len(parameters))] # updates applied to each parameter
         
     def step(self):
         super().step()
         with synapgrad.no_grad():
             for i, p in enumerate(self.parameters):
+                if not p.requires_grad or p._grad is None: continue # frozen / unused parameters stay fixed
+                self.steps[i] += 1
                 grad = -p._grad if self.maximize else p._grad   
                 
                 # Weight decay
@@ -183,8 +190,8 @@ class AdamW(Optimizer):
                 # Update biased second raw moment estimate
                 self.m2[i] = self.beta2 * self.m2[i] + (1.0 - self.beta2) * grad**2.0
                 
-                m1_corrected = self.m1[i] / (1.0 - self.beta1**self.t)
-                m2_corrected = self.m2[i] / (1.0 - self.beta2**self.t)
+                m1_corrected = self.m1[i] / (1.0 - self.beta1**self.steps[i])
+                m2_corrected = self.m2[i] / (1.0 - self.beta2**self.steps[i])
 
                 # Update the parameters using the Adam formula
                 p.data -= (self.lr * m1_corrected) / (np.sqrt(m2_corrected) + self.epsilon)
